@@ -36,6 +36,8 @@ def main(ctx):
                     for sdt in (vals if role == "client" else [1]):
                         jobs.append({"sc": "close", "role": role, "start": start, "cht": cht,
                                      "sdt": sdt})
+                if start == 0.0:
+                    jobs.append({"sc": "disabled", "role": role, "start": start})
                 for sdt in (vals if role == "client" else []):
                     jobs.append({"sc": "peerclose", "role": role, "start": start, "sdt": sdt})
                 for I in vals:
@@ -51,7 +53,7 @@ def main(ctx):
     for n in ("open:silent_dropped", "open:responsive_ok", "close:silent_dropped",
               "close:responsive_ok", "drop:silent_dropped", "drop:responsive_ok",
               "ping:silent_dropped", "ping:responsive_ok", "ping:data_counts",
-              "ping:data_does_not_count", "after_closed_checked", "pings_seen"):
+              "ping:data_does_not_count", "after_closed_checked", "pings_seen", "disabled_ok"):
         ctx.require(n)
 
 
@@ -304,6 +306,47 @@ def job(a):
                     else:
                         count("close:grey_zone")
                         after(r, case)
+    elif sc == "disabled":
+        # a timeout configured as 0 is disabled: a peer that reacts late - but does react - is never
+        # dropped by that timer, and the handshake then completes normally
+        for which in ("open", "close", "drop"):
+            for late in (1.5, 3.0, 6.0):
+                opts = {"openHandshakeTimeout": 0 if which == "open" else 5,
+                        "closeHandshakeTimeout": 0 if which == "close" else 1}
+                if role == "client":
+                    opts["serverConnectionDropTimeout"] = 0 if which == "drop" else 1
+                elif which == "drop":
+                    continue
+                r = Run(role, opts, start)
+                evals[0] += 1
+                case = {"disabled": which, "reaction_after": late}
+                if which == "open":
+                    r.run_until(late + 1.0, [(late, r.handshake)])
+                    ok = r.drop_time is None and r.p.state == 3
+                elif which == "close":
+                    r.handshake()
+                    acts = [(0.0, lambda: r.p.sendClose(1000, "x")),
+                            (late, lambda: r.feed_frame(8, r.F.close_payload(1000, b"ok"))),
+                            (late + 0.25, lambda: (None if r.conn.lost or r.conn.own_drop_pending()
+                                                   else r.conn.peer_drop(clean=True)))]
+                    r.run_until(late + 1.0, acts)
+                    after(r, case)
+                    oc = r.onclose()
+                    ok = (not r.p.wasCloseHandshakeTimeout) and len(oc) == 1 and oc[0][1] is True
+                else:
+                    r.handshake()
+                    acts = [(0.0, lambda: r.feed_frame(8, r.F.close_payload(1000, b"bye"))),
+                            (late, lambda: (None if r.conn.lost or r.conn.own_drop_pending()
+                                            else r.conn.peer_drop(clean=True)))]
+                    r.run_until(late + 1.0, acts)
+                    after(r, case)
+                    oc = r.onclose()
+                    ok = (not r.p.wasServerConnectionDropTimeout) and len(oc) == 1 and oc[0][1] is True
+                if ok:
+                    count("disabled_ok")
+                else:
+                    bad("dropped-although-timeout-disabled", "%s timeout = 0, peer reacted after %ss: drop_time=%s "
+                        "onClose=%s" % (which, late, r.drop_time, r.onclose()), case)
     elif sc == "peerclose":
         # the peer (server) initiates the close; the client answers and waits for the TCP drop
         sdt = a["sdt"]
